@@ -357,8 +357,16 @@ def match_known(pid, case, known):
 
 
 # ------------------------------------------------------------------ main flow
+def out_dir(kind):
+    # runs against a repository other than /repo (mutation testing) never touch the
+    # evidence/replays of the real tree
+    if os.path.realpath(REPO) != "/repo":
+        return os.path.join(VERIF, ".build", kind + "-other-repo")
+    return os.path.join(VERIF, kind)
+
+
 def write_replay(ctx, name, payload):
-    d = os.path.join(VERIF, "replays")
+    d = out_dir("replays")
     os.makedirs(d, exist_ok=True)
     path = os.path.join(d, "%s-%s-%s.json" % (ctx.pid, ctx.seed, name))
     json.dump(payload, open(path, "w"), indent=1)
@@ -377,8 +385,8 @@ def finish(ctx, violations, known_lines, cov, ok_to_write=True):
         "wall_s": round(wall, 2),
         "violations": len(violations),
     }
-    os.makedirs(os.path.join(VERIF, "evidence"), exist_ok=True)
-    json.dump(ev, open(os.path.join(VERIF, "evidence", ctx.pid + ".json"), "w"), indent=1)
+    os.makedirs(out_dir("evidence"), exist_ok=True)
+    json.dump(ev, open(os.path.join(out_dir("evidence"), ctx.pid + ".json"), "w"), indent=1)
     for l in known_lines:
         log(l)
     for v in violations:
